@@ -15,7 +15,7 @@ from ..rdfmodel import RDF_TYPE, RDF, to_nt, triples_from_json
 
 PID = "C18"
 RULE = ("Hypothesis histories: graph x constructor arguments x a sequence of <=3 operations from {shex_graph(ShExC|SHACL, "
-        "string|file|both, threshold in {0,.5,1}), profile_graph(string|file), new Shaper built with the SAME namespaces dict object}; "
+        "string|file|both, threshold in {0,.5,1}), profile_graph(string|file), new Shaper built with the SAME namespaces dict / target_classes / namespaces_to_ignore objects}; "
         "graphs from a few lines up to >10 000 output lines (800 / 1 500 one-instance classes = 5 600 / 10 500 lines; the serializer flushes every 5 000 "
         "lines).  Model: a fresh Shaper with freshly copied arguments performing only that call; invariant after every step: same "
         "text (ShExC byte for byte, SHACL graph-isomorphic), file bytes == string, the caller's namespaces dict unchanged.  "
@@ -62,19 +62,31 @@ def cases(draw, tier):
     if size != "small":
         # the 5 000-line flush belongs to the ShExC serializer; SHACL graphs of that size make the isomorphism oracle too slow
         ops = [[o[0], "ShEx", o[2], o[3]] if o[0] == "shex" else o for o in ops if o[0] != "profile"] or [["shex", "ShEx", "file", 0]]
-    return {"g": g, "cfg": cfg, "ns": ns, "ops": ops}
+    case = {"g": g, "cfg": cfg, "ns": ns, "ops": ops}
+    if size == "small" and draw(st.integers(0, 2)) == 0:
+        case["targets"] = draw(st.lists(st.sampled_from(g["classes"]), min_size=1, max_size=len(g["classes"]), unique=True))
+    if draw(st.integers(0, 3)) == 0:
+        case["ignore"] = draw(st.lists(st.sampled_from(["http://ex.org/ns/", "http://other.org/v#"]), min_size=1, max_size=2, unique=True))
+    return case
 
 
 def strategy(tier):
     return cases(tier)
 
 
-def make_kwargs(case, ns_obj):
+def make_kwargs(case, ns_obj, shared=None):
+    """shared: dict of argument objects the caller reuses between Shapers (lists); None = fresh copies"""
     g = case["g"]
     if "big" in g:
         g = big_graph(g["big"])
     triples = triples_from_json(g["triples"])
-    kw = dict(raw_graph=to_nt(triples), all_classes_mode=True)
+    kw = dict(raw_graph=to_nt(triples))
+    if case.get("targets"):
+        kw["target_classes"] = shared["targets"] if shared else list(case["targets"])
+    else:
+        kw["all_classes_mode"] = True
+    if case.get("ignore"):
+        kw["namespaces_to_ignore"] = shared["ignore"] if shared else list(case["ignore"])
     kw.update(case["cfg"])
     if ns_obj is not None:
         kw["namespaces_dict"] = ns_obj
@@ -130,13 +142,15 @@ def check(case):
         labels.add("nontrivial")
     ns_shared = copy.deepcopy(case["ns"])
     ns_before = copy.deepcopy(ns_shared)
+    shared = {"targets": list(case.get("targets") or []), "ignore": list(case.get("ignore") or [])}
+    shared_before = copy.deepcopy(shared)
     with sut.tmpdir() as d:
         def history():
-            shaper = sut.Shaper(**make_kwargs(case, ns_shared))
+            shaper = sut.Shaper(**make_kwargs(case, ns_shared, shared))
             for i, op in enumerate(ops):
                 if op[0] == "new_shaper":
                     # another Shaper built by the same caller with the same dict object; from now on it is the one observed
-                    other = sut.Shaper(**make_kwargs(case, ns_shared))
+                    other = sut.Shaper(**make_kwargs(case, ns_shared, shared))
                     shaper = other
                     continue
                 fmt = op[1] if op[0] == "shex" else "profile"
@@ -169,6 +183,8 @@ def check(case):
         return discard("crash:" + crash.bucket)
     if res is None and ns_before is not None and ns_shared != ns_before:
         res = "the caller's namespaces dictionary was modified: %s -> %s" % (ns_before, ns_shared)
+    if res is None and shared != shared_before:
+        res = "an argument list of the caller was modified: %s -> %s" % (shared_before, shared)
     if res is not None:
         return violation(res, labels, nt)
     return ok(labels, nt)
